@@ -607,6 +607,12 @@ class EQLTranslator:
             return extractor.extract_from_literal(operand)
 
         if isinstance(operand, Variable):
+            if get_dao_class(operand._type_) is not None:
+                # a second variable over a mapped class is a join partner, not a value that can be bound as a parameter
+                raise UnsupportedOperatorError(
+                    f"Comparison with the variable {operand._name_} of the mapped class "
+                    f"{operand._type_.__name__} is not supported."
+                )
             extractor = DomainValueExtractor(self.session)
             return extractor.extract_from_variable(operand)
 
